@@ -78,11 +78,22 @@ def model_cmd(c):
     return base.model_cmd(c)
 
 
+def wide(c):
+    """number of operands of a very wide And/Or at the root of an apply command (0 if not wide): hundreds
+    of 32-bit additions accumulate rounding error, so the comparison tolerance scales with the width"""
+    if c[0] in ("apply", "applyb") and len(c) > 2 and c[1] in ("or", "and") and isinstance(c[2], int) and c[2] > 32:
+        return c[2]
+    return 0
+
+
 def post_model(hyp, case, mouts, iouts):
     out = base.post_model(hyp, case, mouts, iouts)
     res = []
     for c, line in zip(case["cmds"], out):
-        if c[0] == "applysort" and line.startswith("S["):
+        if wide(c) and line.startswith("{"):
+            parts = line.split(" ## ")
+            res.append(" ## ".join("~%d %s" % (wide(c), x) for x in parts))
+        elif c[0] == "applysort" and line.startswith("S["):
             body = line[2:-1].split()
             res.append("S[" + " ".join("%s:%r" % (t.split(":")[0], base.unbits(t.split(":")[1])) for t in body) + "]")
         else:
@@ -97,6 +108,13 @@ def parse_seq(s):
 def same(a, b):
     if a == b:
         return True
+    if a.startswith("~") and b.startswith("~"):
+        n = int(a[1:].split(" ", 1)[0])
+        x = [(int(t.split(":")[0]), float(t.split(":")[1])) for t in a.split(" ", 1)[1][1:-1].split()]
+        y = [(int(t.split(":")[0]), float(t.split(":")[1])) for t in b.split(" ", 1)[1][1:-1].split()]
+        tol = base.TOL * (1 + n / 8.0)
+        return [k for k, _ in x] == [k for k, _ in y] and \
+            all(abs(u - v) <= tol * max(abs(u), abs(v)) for (_, u), (_, v) in zip(x, y))
     if a.startswith("S[") and b.startswith("S["):
         x, y = parse_seq(a), parse_seq(b)
         if len(x) != len(y):
@@ -359,6 +377,25 @@ def gen(rng, tier, idx):
 
     history(ndocs + rng.randrange(0, 3))
     first = len(cmds)
+    r_big = rng.random()
+    if r_big < 0.02:
+        # a very large result (2049-2400 hits on one word): size-gated paths in apply / sort (seeded C20_G)
+        w = rng.choice(vocab)
+        for d in range(1000, 1000 + rng.randrange(2049, 2400)):
+            ws = [w] * rng.choice([1, 1, 2]) + ([rng.choice(vocab)] if rng.random() < 0.3 else [])
+            cmds.append(["index", d] + ws)
+            table[d] = ws
+        t = ("a", new_term([w]))
+        cmds.append(["applyb"] + base.tree_tokens(t))
+        cmds.append(["apply"] + base.tree_tokens(t))
+        cmds.append(["applysort", rng.randrange(2), rng.choice([1, 3, 50]), ] + base.tree_tokens(t))
+    elif r_big < 0.05:
+        # a very long query: 257-400 term occurrences over a few distinct words (seeded C20_H: a size-gated
+        # de-duplication of the query's word ids changes the weight but not the raw score)
+        few = [new_term([w]) for w in rng.sample(vocab, min(len(vocab), rng.choice([1, 2, 3])))]
+        atoms = [("a", rng.choice(few)) for _ in range(rng.randrange(257, 400))]
+        t = (rng.choice(["or", "and"]), atoms)
+        cmds.append(["apply"] + base.tree_tokens(t))
     for _ in range(rng.randrange(2, 5)):
         tree_cmds()
     if rng.random() < 0.6:
@@ -501,7 +538,8 @@ def impl_run(hyp, case):
             raise
         except Exception as e:
             outs.append(exc_name(e))
-    return outs
+    return ["~%d %s" % (wide(c), o) if wide(c) and isinstance(o, str) and o.startswith("{") else o
+            for c, o in zip(case["cmds"], outs)]
 
 
 # ----------------------------------------------------------------------------
